@@ -62,6 +62,9 @@ pub struct State {
     pub f2p_total: u64,
     /// monitor verdicts raised inside callbacks: (property, signature, detail)
     pub callback_violations: Vec<(String, String, String)>,
+    /// in-callback C10 checks performed / tables walked by them since the counter was last drained
+    pub in_callback_checks: u64,
+    pub in_callback_tables_walked: u64,
     /// frames poisoned by the deallocator during the current call
     pub poisoned_this_call: Vec<usize>,
     /// set of frames the monitor currently believes are tables (for frame_to_pointer checking)
@@ -189,6 +192,8 @@ impl Arena {
                 f2p_log: Vec::new(),
                 f2p_total: 0,
                 callback_violations: Vec::new(),
+                in_callback_checks: 0,
+                in_callback_tables_walked: 0,
                 poisoned_this_call: Vec::new(),
                 table_frames: BTreeMap::new(),
                 scratch,
@@ -428,6 +433,8 @@ impl FrameDeallocator<Size4KiB> for ArenaAlloc {
                             }
                         }
                     }
+                    s.in_callback_checks += 1;
+                    s.in_callback_tables_walked += visited as u64;
                     if let Some((pf, k)) = linked_from {
                         s.callback_violations.push(("C10".into(), "dealloc|table-still-linked-at-the-moment-of-deallocation".into(), format!("deallocate_frame({:#x}) while entry {} of table {:#x} still points to it", p, k, pf)));
                     }
